@@ -2,6 +2,7 @@
 // stdin, runs it against the jmespath crate built from /repo's working tree,
 // prints one canonical observation per line.
 mod extra;
+mod tokser;
 mod wire;
 
 use jmespath::ast::Ast;
@@ -458,6 +459,7 @@ fn run_case(line: &str) -> Option<String> {
         "json" => extra::run_json(&mut ts),
         "ser" | "serx" => extra::run_ser(&mut ts),
         "de" => extra::run_de(&mut ts),
+        "dex" => extra::run_dex(&mut ts),
         "conv" => extra::run_conv(&mut ts),
         "fn" => {
             // fn <offset> <name> <arg>* : evaluate a registered function on argument values
